@@ -221,7 +221,7 @@ Section ReleaseAskOp.
       (forall k, getz (q_pending (F_dec_pending (oa_res x) q)) k = getz (q_pending q) k + - getz (oa_res x) k) /\
       (rnonneg (q_alloc (F_dec_pending (oa_res x) q)) /\ rnonneg (q_pending (F_dec_pending (oa_res x) q)))).
     { intros q Hq Hin. destruct (inv_q_wf s HI q Hq). destruct (bd_queues s HBd q Hq). pose proof (bk_queues s HB q Hq) as QB.
-      apply F_dec_pending_facts; auto; [apply (ao_wf _ x Xok)|apply (qb_nn_alloc s q QB)|apply (qb_nn_pend s q QB)|apply (ao_nn _ x Xok)|].
+      apply F_dec_pending_facts; auto; try apply (ao_wf _ x Xok); try apply (qb_nn_alloc s q QB); try apply (qb_nn_pend s q QB); try apply (ao_nn _ x Xok).
       intros k. pose proof (ask_le_pending a x W B Hx Xna k). pose proof (app_pending_dominated s a HI HB Ha q k Hq Hin). lia. }
     apply (native_step s s' a a' (F_dec_pending (oa_res x)) (fun _ => 0) (fun k => - getz (oa_res x) k) HI HB Ha Eapps Eq Ef);
       try reflexivity; auto.
@@ -261,6 +261,6 @@ Proof. intros HI HB HBd Ha Hx H. unfold m_release_ask in H. destruct (oa_allocat
     + apply same_ledgers_event.
     + change (s_apps (upd_app s1 (ap_id a) (fun b => ap_event b (fsm_complete (ap_state b)))))
         with (updk ap_id (updk ap_id (s_apps s) (ap_id a) (fun _ => a1)) (ap_id a) (fun b => ap_event b (fsm_complete (ap_state b)))).
-      apply updk_updk_const. reflexivity.
+      apply (updk_updk_const ap_id (s_apps s) (ap_id a) a1 (fun b => ap_event b (fsm_complete (ap_state b)))). reflexivity.
   - apply (release_ask_core s s1 a a1 x HI HB HBd Ha Hx Xna); try assumption; try reflexivity. apply same_ledgers_refl.
 Qed.
